@@ -21,6 +21,10 @@
    kind = "fam"   {res, cfgs, hashes}           a family of configs, all pairs judged
    kind = "proc"  {res, o, hash, fname, obs}    obs = [{env, res, hash, fname}]: the same config built in
                   separate interpreter processes (PYTHONHASHSEED = env)
+   kind = "coll"  {res, name, om, bm, bname, lib_eq, hash, hd, hneg, hmod, fname, h3, hb}
+                  a MazeDatasetCollectionConfig: om / bm = raw member configs before / after the JSON round
+                  trip, bname = name after it, h3 = hash of an independently built twin, hb = hash after
+   kind = "cline" {res, colls, hashes}          collections [{name, members}] (as requested), all pairs judged
    res fields: "ok" | "raise:<exception class>@<stage>".
 
    Layer P (the statement): no exception; every field of the reloaded config equals the original
@@ -29,6 +33,9 @@
    repeatable, equal in every process, different for configs that differ in one listed field (and for
    every pair of distinct configs of a family); file name = the documented format assembled HERE from
    the logged pieces.
+   Collections: members survive the round trip, identity repeatable / stable / different for different
+   collections (Layer P); their file name "collected-<name>-n<short(total count)>-h<hash mod 10^5>" is
+   NOT fixed by the statement (no single grid size / generator) -> Layer M.
    Layer M ("M:"): the JSON-loaded serialized tree equals ConfigId!SerTree on the modelled keys, and
    ConfigId!Load of it equals the reloaded config.
    "H:" clauses are harness guards (a record outside the scope WF / a malformed line); the driver
@@ -98,6 +105,26 @@ FamClauses(r) ==
   Flag(Cardinality({r.hashes[k] : k \in 1..n}) = n \/ AllPairs(n, Separated), "hash_collision")
   \cup Flag(Cardinality({<<key[k], r.hashes[k]>> : k \in 1..n}) = Cardinality({key[k] : k \in 1..n}), "equal_configs_hash_differently")
 
+RECURSIVE SumCounts(_)
+SumCounts(ms) == IF Len(ms) = 0 THEN 0 ELSE ms[1].n_mazes + SumCounts(Tail(ms))
+MemberSame(b, o) == /\ CfgEq(b, o) /\ b.slmin = o.slmin /\ b.slmax = o.slmax
+                    /\ CoordsAreTuples(b.ek) /\ ArgsAreTuples(b.af)
+CollClauses(r) ==
+  Flag(Len(r.bm) = Len(r.om) /\ \A k \in 1..Len(r.om) : MemberSame(r.bm[k], r.om[k]), "member_changed")
+  \cup Flag(r.bname = r.name, "name_changed")
+  \cup Flag(r.lib_eq, "not_equal_by_library")
+  \cup Flag(r.h3 = r.hash, "hash_not_repeatable")
+  \cup Flag(r.hb = r.hash, "hash_changed_by_round_trip")
+  \cup Flag(r.hmod = HMod(r), "H:hmod_inconsistent")
+  \cup Flag(r.fname \in CollFnames(r.name, SumCounts(r.om), HMod(r)), "M:collection_fname_format")
+
+CollEq(a, b) == /\ a.name = b.name /\ Len(a.members) = Len(b.members)
+                /\ \A k \in 1..Len(a.members) : CfgEq(a.members[k], b.members[k])
+CLineClauses(r) ==
+  LET n == Len(r.colls)
+      Separated(a, b) == r.hashes[a] = r.hashes[b] => CollEq(r.colls[a], r.colls[b]) IN
+  Flag(Len(r.hashes) = n /\ AllPairs(n, Separated), "hash_collision:collection")
+
 ProcClauses(r) ==
   Flag(\A k \in 1..Len(r.obs) : r.obs[k].res = "ok", "unexpected_exception")
   \cup Flag(Len(r.obs) >= 2, "H:too_few_processes")
@@ -112,6 +139,8 @@ Clauses(r) ==
          [] r.kind = "line" -> LineClauses(r)
          [] r.kind = "fam"  -> FamClauses(r)
          [] r.kind = "proc" -> ProcClauses(r)
+         [] r.kind = "coll" -> CollClauses(r)
+         [] r.kind = "cline" -> CLineClauses(r)
          [] OTHER           -> {"H:unknown_kind"}
 
 VARIABLES l, bad
